@@ -212,4 +212,5 @@ def confirm(run, d):
     rs = run.harness("script", hcs)
     if any("panic" in r for r in rs):
         return d["sig"] == "panic"
-    return any(sig == d["sig"] for sig, _ in evaluate(c, ws, ms, rs))
+    # a defect that depends on map iteration order shows under varying signatures: the case must diverge again, in any clause
+    return len(evaluate(c, ws, ms, rs)) > 0
